@@ -1,6 +1,7 @@
 // C15 — stream serialization. ASan/UBSan-instrumented half: writers, byte channel with cut,
 // reader, fixed-capacity device model.
 #include <cstring>
+#include <memory>
 #include <string>
 #include <vector>
 
@@ -275,6 +276,64 @@ void round_trip(const A15Plan *p)
   a15_note_cut(total, cut, before, threw_at);
 }
 
+// a reader on the writer's own (shared, growing) buffer, created before everything is written:
+// what has been written so far must be readable, end() must say whether unread bytes remain
+void interleaved(const A15Plan *p)
+{
+  std::vector<Held> vals;
+  for (int i = 0; i < p->nvals; i++)
+    vals.push_back(make(p->vals[i]));
+  BufferWriter bw;
+  std::unique_ptr<BufferReader> rd;
+  size_t written = 0, readn = 0;
+  std::vector<size_t> ends;
+  unsigned pattern = (unsigned)p->cut_choice;
+  int steps = 0;
+  while (readn < vals.size()) {
+    if (!rd && (int)written >= p->reader_at)
+      rd.reset(new BufferReader(bw.buffer));
+    bool can_write = written < vals.size();
+    bool can_read = rd && readn < written;
+    bool do_write = can_write && (!can_read || ((pattern >> (steps++ % 16)) & 1));
+    if (do_write) {
+      write_value(bw, vals[written]);
+      ends.push_back(bw.buffer->size());
+      written++;
+      continue;
+    }
+    if (!can_read) {
+      a15_fail("C15:interleaved:stuck", "harness error");
+      return;
+    }
+    size_t expect_cursor = readn ? ends[readn - 1] : 0;
+    if (rd->cursor != expect_cursor) {
+      a15_fail("C15:cursor-wrong", "reader cursor is not at the end of the previous value");
+      return;
+    }
+    bool unread = ends[written - 1] > expect_cursor;
+    if (rd->end() == unread) {
+      a15_fail(unread ? "C15:end-true-too-early" : "C15:end-false-after-last-value", "end() does not say whether written bytes remain unread (reader attached to a writer that is still writing)");
+      return;
+    }
+    try {
+      if (!read_and_compare(*rd, vals[readn])) {
+        a15_fail("C15:value-differs", "a value read back differs from the value written");
+        return;
+      }
+    } catch (const std::exception &) {
+      a15_fail("C15:valid-read-rejected", "reading a completely written value threw (reader attached to a writer that is still writing)");
+      return;
+    }
+    readn++;
+  }
+  if (rd && (!rd->end() || rd->cursor != bw.buffer->size())) {
+    a15_fail("C15:end-false-after-last-value", "after reading every value the reader is not at the end");
+    return;
+  }
+  a15_probe(8);
+  a15_note_cut(bw.buffer->size(), bw.buffer->size(), (int)readn, -1);
+}
+
 void fixed_device(const A15Plan *p)
 {
   // total bytes the script would need
@@ -355,6 +414,8 @@ extern "C" void a15_run()
   const A15Plan *p = a15_plan();
   if (p->mode == 2)
     fixed_device(p);
+  else if (p->mode == 3)
+    interleaved(p);
   else
     round_trip(p);
 }
